@@ -80,10 +80,12 @@ def hop_autograd_apply(fwd: fx.GraphModule, bwd: fx.GraphModule, operands: Seque
 
 
 class SymInterp(fx.Interpreter):
-    def __init__(self, gm: fx.GraphModule, leaves: Dict[str, STensor], record: Optional[Dict[str, Any]] = None):
+    def __init__(self, gm: fx.GraphModule, leaves: Dict[str, STensor], record: Optional[Dict[str, Any]] = None,
+                 functional_inplace: bool = False):
         super().__init__(gm, garbage_collect_values=False)
         self.leaves = leaves
         self.record = record
+        self.functional_inplace = functional_inplace  # reference semantics: each node's value as it was when produced
 
     def placeholder(self, target: Any, args: Any, kwargs: Any) -> Any:
         return self.leaves[str(target)]
@@ -97,6 +99,8 @@ class SymInterp(fx.Interpreter):
     def call_function(self, target: Any, args: Any, kwargs: Any) -> Any:
         if is_hop_apply(target):
             return hop_autograd_apply(args[0], args[1], args[2:])
+        if self.functional_inplace and target is operator.iadd:
+            target = operator.add
         return super().call_function(target, args, kwargs)
 
     def run_symbolic(self) -> Any:
